@@ -52,6 +52,11 @@ type hist struct {
 	big     bool
 	nReq    int
 	samples int
+
+	// atomic groups (atomic.go)
+	ghosts  []string // ids whose creation was rolled back with its transaction / only simulated, not re-created since
+	ghostOf map[string]string // ghost id -> how it became one ("tx", "sim", "handler", "wasm")
+	nGroup  int
 }
 
 func cases(tier string, seed int64) []fw.Case {
@@ -78,7 +83,7 @@ func run(c fw.Case, tier string, rec *fw.Recorder) {
 		rec.Inconclusive("bring-up failed: " + err.Error())
 		return
 	}
-	h := &hist{e: e, r: c.Rand(), rec: rec, jobs: map[string]*jobRef{}, usedIDs: map[string]bool{}, big: p.Big}
+	h := &hist{e: e, r: c.Rand(), rec: rec, jobs: map[string]*jobRef{}, usedIDs: map[string]bool{}, ghostOf: map[string]string{}, big: p.Big}
 	rec.Op(map[string]any{"op": "setup", "variant": p.Variant, "topology": e.topo})
 	// seed a few jobs first so that executions have something to run
 	for i := 0; i < 6; i++ {
@@ -111,6 +116,11 @@ func (h *hist) step(createOnly bool) {
 		case x < 6:
 			h.rec.Op(map[string]any{"op": "skip", "h": h.e.c.Height})
 			h.e.c.Skip(1 + r.Intn(3))
+			return
+		case x < 15:
+			// several requests that stand or fall together (multi-message tx, its simulation,
+			// the messages of one contract execution)
+			h.runGroup(h.genGroup())
 			return
 		}
 	}
@@ -258,54 +268,57 @@ func (h *hist) runCached(req request) {
 	h.rec.Op(map[string]any{"op": "request", "mode": "cached", "h": c.Height, "dt": dt.Seconds(), "req": req})
 	before := h.e.snapQueues(base)
 	cctx, write := base.CacheContext()
-	res := result{}
-	func() {
-		defer func() {
-			if e := recover(); e != nil {
-				res = result{OK: false, Err: fmt.Sprintf("PANIC: %v\n%s", e, debug.Stack())}
-				h.rec.Count("panics_observed", 1)
-			}
-		}()
-		var err error
-		switch req.Path {
-		case "handler":
-			var msg sdk.Msg
-			if req.Kind == "create" {
-				// through the wire format, as a transaction would carry it
-				m, m2 := h.createMsg(req), &schedulertypes.MsgCreateJob{}
-				bz, _ := m.Marshal()
-				if err = m2.Unmarshal(bz); err == nil {
-					err = m2.ValidateBasic()
-				}
-				msg = m2
-			} else {
-				m, m2 := h.execMsg(req), &schedulertypes.MsgExecuteJob{}
-				bz, _ := m.Marshal()
-				if err = m2.Unmarshal(bz); err == nil {
-					err = m2.ValidateBasic()
-				}
-				msg = m2
-			}
-			if err == nil {
-				_, err = c.App.MsgServiceRouter().Handler(msg)(cctx, msg)
-			}
-		case "wasm", "wasm-legacy":
-			p := h.principalByName(req.Caller)
-			_, _, _, err = h.e.wasm.DispatchMsg(cctx, p.Addr, "", wasmvmtypes.CosmosMsg{Custom: h.wasmCustom(req)})
-		default:
-			err = fmt.Errorf("harness: unknown path %q", req.Path)
-		}
-		if err != nil {
-			res = result{OK: false, Err: err.Error()}
-		} else {
-			res = result{OK: true}
-		}
-	}()
+	res := h.dispatch(cctx, req)
 	after := h.e.snapQueues(cctx)
 	h.evaluate([]request{req}, []result{res}, before, after, cctx, "cached")
 	if res.OK {
 		write()
 	}
+}
+
+// dispatch: one request through the msg-server handler (wire format + ValidateBasic first) or the
+// wasm router, on ctx. A panic is an observation (baseapp / wasmd recover it and fail the request).
+func (h *hist) dispatch(cctx sdk.Context, req request) (res result) {
+	c := h.e.c
+	defer func() {
+		if e := recover(); e != nil {
+			res = result{OK: false, Err: fmt.Sprintf("PANIC: %v\n%s", e, debug.Stack())}
+			h.rec.Count("panics_observed", 1)
+		}
+	}()
+	var err error
+	switch req.Path {
+	case "handler":
+		var msg sdk.Msg
+		if req.Kind == "create" {
+			// through the wire format, as a transaction would carry it
+			m, m2 := h.createMsg(req), &schedulertypes.MsgCreateJob{}
+			bz, _ := m.Marshal()
+			if err = m2.Unmarshal(bz); err == nil {
+				err = m2.ValidateBasic()
+			}
+			msg = m2
+		} else {
+			m, m2 := h.execMsg(req), &schedulertypes.MsgExecuteJob{}
+			bz, _ := m.Marshal()
+			if err = m2.Unmarshal(bz); err == nil {
+				err = m2.ValidateBasic()
+			}
+			msg = m2
+		}
+		if err == nil {
+			_, err = c.App.MsgServiceRouter().Handler(msg)(cctx, msg)
+		}
+	case "wasm", "wasm-legacy":
+		p := h.principalByName(req.Caller)
+		_, _, _, err = h.e.wasm.DispatchMsg(cctx, p.Addr, "", wasmvmtypes.CosmosMsg{Custom: h.wasmCustom(req)})
+	default:
+		err = fmt.Errorf("harness: unknown path %q", req.Path)
+	}
+	if err != nil {
+		return result{OK: false, Err: err.Error()}
+	}
+	return result{OK: true}
 }
 
 // runBlock: requests as signed transactions in ONE real block.
@@ -371,6 +384,11 @@ func (h *hist) evaluate(unit []request, res []result, before, after qsnap, store
 		case "create":
 			rec.Eval(1)
 			old := h.jobs[req.JobID]
+			if !res[i].OK && res[i].RolledBack {
+				// not refused itself: undone together with its transaction / only simulated
+				rec.Count("create_rolled_back_with_its_transaction", 1)
+				continue
+			}
 			if !res[i].OK {
 				rec.Count("create_rejected", 1)
 				switch {
@@ -411,6 +429,13 @@ func (h *hist) evaluate(unit []request, res []result, before, after qsnap, store
 			if old == nil {
 				h.ids = append(h.ids, req.JobID)
 			}
+			if how, was := h.ghostOf[req.JobID]; was {
+				// the id was created once before, on a store branch that was thrown away
+				j.Reborn = true
+				h.dropGhost(req.JobID)
+				rec.Count("create_ok_of_id_rolled_back_earlier", 1)
+				rec.Count("create_ok_of_id_rolled_back_earlier_"+how, 1)
+			}
 			h.jobs[req.JobID] = j
 			fresh[req.JobID] = true
 			if req.Class == "badpayload" || req.Class == "badid" || req.Class == "badchaintype" {
@@ -419,6 +444,13 @@ func (h *hist) evaluate(unit []request, res []result, before, after qsnap, store
 		case "exec":
 			rec.Eval(1)
 			j := h.jobs[req.JobID]
+			if !res[i].OK && res[i].RolledBack {
+				rec.Count("exec_rolled_back_with_its_transaction", 1)
+				continue
+			}
+			if _, ghost := h.ghostOf[req.JobID]; ghost && !res[i].OK {
+				rec.Count("exec_failed_of_id_rolled_back_earlier", 1)
+			}
 			if !res[i].OK {
 				rec.Count("exec_failed", 1)
 				rec.Count("exec_failed_"+failClass(res[i].Err), 1)
@@ -459,6 +491,9 @@ func (h *hist) evaluate(unit []request, res []result, before, after qsnap, store
 			}
 			if j.MEV {
 				rec.Count("exec_ok_mev_job", 1)
+			}
+			if j.Reborn {
+				rec.Count("exec_ok_of_job_whose_id_was_rolled_back_earlier", 1)
 			}
 			if caller.Contract {
 				rec.Count(fmt.Sprintf("exec_ok_contract_addr_len_%d", len(caller.Addr)), 1)
@@ -523,6 +558,7 @@ func (h *hist) evaluate(unit []request, res []result, before, after qsnap, store
 	}
 
 	h.checkJobStore(storeCtx, unit, res, fresh)
+	h.checkJobQuery(storeCtx, unit, res, mode)
 }
 
 // checkJobStore: the scheduler store's job records against the reference book.
@@ -634,11 +670,14 @@ func init() {
 		ID:    "C17",
 		Level: "exploration",
 		Rule: "one real app per case (5 EVM chains; per-variant topology: which validators carry the MEV trait on which chain, which chains have relayer fees, which are active / have a published snapshot); " +
-			"a seeded history of create / execute requests (quick 12 x ~96, thorough 64 x ~486) by 4 accounts and 3 contracts (32- and 20-byte addresses) through three routes: signed txs in real blocks (1-3 per block, " +
+			"a seeded history of create / execute requests (quick 48 x ~120, thorough 64 x ~480) by 4 accounts and 3 contracts (32- and 20-byte addresses) through three routes: signed txs in real blocks (1-3 per block, " +
 			"incl. same-id creates and create+execute in one block), the msg-server handler on a cache context, and the real wasm router + scheduler bindings (new and legacy message format); " +
 			"creates: fresh / duplicate ids (other owner, other content), illegal ids (length 33, upper case, reserved words), foreign Job.Owner, malformed payload, unsupported chain type, MEV on (un)supported chains; " +
 			"executes: stored vs supplied payload on modifiable and fixed jobs, unknown jobs, unknown chain, chain without relayer fees, MEV job without MEV relayer, malformed supplied documents, empty wasm payload; " +
-			"stake churn + snapshot rebuilds make just-in-time valset updates accompany calls. " +
+			"stake churn + snapshot rebuilds make just-in-time valset updates accompany calls; " +
+			"~9 % of the units are atomic groups [create X, execute X (, execute X) (, a request that cannot succeed)] run as one multi-message tx in a block, as the SIMULATION of that tx (BaseApp.Simulate), " +
+			"or as the messages of one handler / contract execution on one cache context: when a member fails (or the tx was only simulated) the group never happened, its ids are re-used by later creates with other content " +
+			"and asked for by later executions and queries; after every unit the scheduler's query service (QueryGetJobByID) is asked for the jobs touched, one job of the book and one rolled-back id. " +
 			"distinct_nontrivial = distinct (request content, outcome) pairs that reached the scheduler; evaluations = per-request verdicts + per-chain queue diffs + enqueued-call comparisons + job-record comparisons",
 		Assumptions: []string{
 			"payload documents are JSON objects whose hexPayload is even-length hexadecimal (optionally 0x/0X prefixed, any case); odd-length / non-hex strings have no defined call data and are not generated",
@@ -646,6 +685,8 @@ func init() {
 			"a contract's request = the real libwasm router + scheduler binding called with the contract address on a cache context that is committed only on success (wasmd's DispatchSubmessages discipline); no wasm VM runs",
 			"'failed request enqueues no contract call' is observed on the cache context of the failed handler/binding call before it is dropped, and on committed state for transactions",
 			"contract addresses are at most 32 bytes",
+			"a transaction that failed at any message, or was only simulated, counts as never having happened: ids created in it are free, executions of them must fail, queries must not find them",
+			"'never change after creation' is also read off the module's own query service (QueryGetJobByID), not only off the raw store",
 		},
 		Cases: cases,
 		Run:   run,
@@ -653,7 +694,10 @@ func init() {
 			"exec_ok_tx", "exec_ok_signed_by_grantee_of_creator", "create_ok_signed_by_grantee_of_creator", "exec_ok_handler", "exec_ok_wasm", "exec_ok_wasm-legacy",
 			"exec_ok_modifiable_supplied", "exec_ok_modifiable_stored", "exec_ok_fixed_stored", "exec_ok_mev_job",
 			"exec_failed_cannot_modify_payload", "exec_failed_relayer_selection_no_mev_relayer", "exec_failed_relayer_selection_no_eligible_relayer",
-			"exec_failed_unknown_job", "exec_failed_unknown_chain", "exec_ok_accompanied_by_valset_update", "calls_compared", "job_records_compared"},
+			"exec_failed_unknown_job", "exec_failed_unknown_chain", "exec_ok_accompanied_by_valset_update", "calls_compared", "job_records_compared",
+			"atomic_groups_committed", "atomic_groups_rolled_back_tx", "atomic_groups_rolled_back_handler", "atomic_groups_rolled_back_wasm", "atomic_groups_simulated",
+			"create_ok_of_id_rolled_back_earlier", "exec_ok_of_job_whose_id_was_rolled_back_earlier", "exec_failed_of_id_rolled_back_earlier",
+			"job_queries_compared", "job_queries_of_rolled_back_ids_not_found"},
 		TimeoutS: 1200,
 	})
 }
